@@ -25,6 +25,7 @@ MatrixDef(e, o) ==
   THEN \* adaptive neighbourhood: symmetric, every state has at least pn other neighbours
        /\ IsSymM(o.R)
        /\ (e.pn <= Len(o.R) - 1 => \A r \in 1..Len(o.R) : RowSumOff(o.R, r) >= e.pn)
+  ELSE IF e.mode = "tstd" THEN AgreesUpToTies(o.R, RecStd(e.metric, Traj(e), e.s, e.pn, e.pd))
   ELSE o.R = ExpR(e)
 \* local rate: rows whose cut is tie-free have the same number of recurrences
 EqualLocal(e, o) == e.mode = "lrr" =>
